@@ -3747,6 +3747,9 @@ class CaseNode(Node):
 
             # check if we need else (is this a finishing state)
             if converted_states[processing] in new_dfa.accepting_states:
+                # symbols that are errors for every pattern must still not be swallowed by an else transition that continues matching
+                if actual_else and DFTransition.Else not in actual_else and converted_states[processing][DFTransition.Else] is not None:
+                    converted_states[processing].transition(DFTransition(list(actual_else)).to(error_handling_state).fallthrough().handles_else(), allow_replace=True)
                 continue
 
             if DFTransition.Else in actual_else:
